@@ -13,6 +13,7 @@ import ScyllaVerif.Proofs.CarrierStatic
 import ScyllaVerif.Proofs.CarrierTc
 import ScyllaVerif.Proofs.CarrierDims
 import ScyllaVerif.Proofs.CarrierDocs
+import ScyllaVerif.Proofs.Pager
 import ScyllaVerif.Generated.DocMatrix
 
 namespace ScyllaVerif.Props.C17
@@ -490,6 +491,41 @@ theorem checked_collection_kind (c : Carrier) (t : CqlTy) :
 
 example : typedIterNew (.cols [.scalar .i32, .scalar .str]) [.native .int, .native .blob] 1000
     = .error ⟨[.col 1], .mismatchedType⟩ := by rfl
+
+/-! ### the pager's typed stream: every page is checked against ITS OWN metadata -/
+
+/-- **Every yielded row belongs to a page that passed `type_check` against that page's metadata** — whatever the
+pages' column specs are (all different, changing back and forth, with zero-sized pages in between), for every
+row type (`check` is its `type_check`).  And a type-check error is only ever reported for a page that does not
+fit.  (The flag `current_page_typechecked` is reset by every freshly fetched page; were it reset only for SOME
+fresh pages, rows of an unchecked page would be deserialized — reinterpreted — with the previous page's verdict.) -/
+theorem stream_rows_checked (check : List (String × CqlTy) → Bool) (pages : List PageM) (outs : List StreamOut)
+    (h : typedStream check pages = some outs) :
+    (∀ i, StreamOut.row i ∈ outs → ∃ p, pages[i]? = some p ∧ check p.specs = true) ∧
+    (∀ i, StreamOut.typeErr i ∈ outs → ∃ p, pages[i]? = some p ∧ check p.specs = false) := by
+  constructor <;> intro i hi
+  · obtain ⟨k, p, hp, hok⟩ := ScyllaVerif.Proofs.Pager.typedStream_ok check pages outs h _ hi
+    rcases hok with ⟨he, hc⟩ | ⟨he, _⟩
+    · cases he; exact ⟨p, hp, hc⟩
+    · cases he
+  · obtain ⟨k, p, hp, hok⟩ := ScyllaVerif.Proofs.Pager.typedStream_ok check pages outs h _ hi
+    rcases hok with ⟨he, _⟩ | ⟨he, hc⟩
+    · cases he
+    · cases he; exact ⟨p, hp, hc⟩
+
+/-- The constructor refuses a first page that does not fit: no stream, no row. -/
+theorem stream_ctor_refuses (check : List (String × CqlTy) → Bool) (p : PageM) (ps : List PageM)
+    (h : check p.specs = false) : typedStream check (p :: ps) = none := by
+  simp [typedStream, h]
+
+/-- Non-vacuity, the shape of the missed seeded change: page 0 `[pk int, v bigint]`, page 1 `[pk int, v double]`
+under a stream typed `(i32, i64)`: the two rows of page 0, then a type-check error — never a row of page 1. -/
+example :
+    let check := fun (specs : List (String × CqlTy)) =>
+      (tcheckRow (.cols [.scalar .i32, .scalar .i64]) (specs.map (·.2))).isNone
+    typedStream check [⟨[("pk", .native .int), ("v", .native .bigint)], 2⟩, ⟨[], 0⟩,
+      ⟨[("pk", .native .int), ("v", .native .double)], 3⟩] = some [.row 0, .row 0, .typeErr 2] := by
+  decide
 
 /-- On read, sets are not lists and tuples need the exact arity; on write they do not (non-vacuity of the
 difference between the two relations). -/
